@@ -867,7 +867,7 @@ func evalActionAdd(node *ActionExpression, env *Environment) Object {
 		return addObj.Add(val)
 	}
 
-	return UNDEFINED
+	return newError("invalid ADD target: %s", node.Left.String())
 }
 
 func evalActionDelete(node *ActionExpression, env *Environment) Object {
@@ -897,7 +897,7 @@ func evalActionDelete(node *ActionExpression, env *Environment) Object {
 		return addObj.Delete(val)
 	}
 
-	return UNDEFINED
+	return newError("invalid DELETE target: %s", node.Left.String())
 }
 
 func evalActionRemove(node *ActionExpression, env *Environment) Object {
